@@ -37,3 +37,32 @@ class Pow2ModDivMod:
            "pow2(B - s) == pow2(m) * pow2(B - s - m))",
            "euclid(t + pow2(B - s) * q, pow2(m), u, v + pow2(B - s - m) * q)"]
   concl = ["idiv(Y % pow2(B), pow2(s)) % pow2(m) == idiv(Y, pow2(s)) % pow2(m)"]
+
+
+@lemma("mod_mul_r")
+class ModMulR:
+  """(a * (b % m)) % m == (a * b) % m"""
+  vars = {"a": "int", "b": "int", "m": "int"}
+  hyps = ["m >= 1"]
+  proof = ["let q = idiv(b, m)", "let r = b % m", "let q2 = idiv(a * r, m)", "let r2 = (a * r) % m",
+           "divmod_def(b, m) and divmod_def(a * r, m)",
+           "by(a * b == r2 + m * (q2 + a * q), b == m * q + r, a * r == m * q2 + r2)",
+           "euclid(a * b, m, r2, q2 + a * q)"]
+  concl = ["(a * (b % m)) % m == (a * b) % m"]
+
+
+@lemma("mod_eq_iff")
+class ModEqIff:
+  """two residues are equal exactly when the represented integers are congruent"""
+  vars = {"A": "int", "B": "int", "m": "int"}
+  hyps = ["m >= 1"]
+  proof = ["let qa = idiv(A, m)", "let qb = idiv(B, m)", "let k = idiv(A - B, m)",
+           "divmod_def(A, m) and divmod_def(B, m) and divmod_def(A - B, m)",
+           "implies(A % m == B % m, by(A - B == 0 + m * (qa - qb), A == m * qa + A % m, B == m * qb + B % m, "
+           "A % m == B % m))",
+           "implies(A % m == B % m, euclid(A - B, m, 0, qa - qb))",
+           "implies((A - B) % m == 0, by(A % m - B % m == m * (k - qa + qb), A == m * qa + A % m, "
+           "B == m * qb + B % m, A - B == m * k + (A - B) % m, (A - B) % m == 0))",
+           "implies((A - B) % m == 0, by(k - qa + qb == 0, A % m - B % m == m * (k - qa + qb), 0 <= A % m, A % m < m, "
+           "0 <= B % m, B % m < m, m >= 1))"]
+  concl = ["(A % m == B % m) == ((A - B) % m == 0)"]
